@@ -2,6 +2,9 @@ package lib
 
 import (
 	"bytes"
+	"crypto/sha256"
+	"encoding/hex"
+	"syscall"
 	"encoding/json"
 	"fmt"
 	"os"
@@ -403,4 +406,52 @@ func ForbiddenScan() []string {
 		return nil
 	})
 	return hits
+}
+
+// CoqChk re-checks every compiled property module (and everything it depends on) with the
+// independent checker coqchk and returns its context summary. Cached per hash of the Coq sources.
+func CoqChk() (string, error) {
+	coqdir := filepath.Join(VerifRoot(), "coq")
+	h := sha256.New()
+	var mods []string
+	for _, d := range []string{"theories", "proofs", "props"} {
+		ents, _ := os.ReadDir(filepath.Join(coqdir, d))
+		for _, e := range ents {
+			if strings.HasSuffix(e.Name(), ".v") {
+				b, _ := os.ReadFile(filepath.Join(coqdir, d, e.Name()))
+				h.Write([]byte(e.Name()))
+				h.Write(b)
+				if d == "props" {
+					mods = append(mods, "SebufProps."+strings.TrimSuffix(e.Name(), ".v"))
+				}
+			}
+		}
+	}
+	key := hex.EncodeToString(h.Sum(nil))[:16]
+	cache := filepath.Join(CacheRoot(), "coqchk-"+key+".txt")
+	if b, err := os.ReadFile(cache); err == nil {
+		return string(b), nil
+	}
+	lock, err := os.OpenFile(filepath.Join(CacheRoot(), "coqchk.lock"), os.O_CREATE|os.O_RDWR, 0o644)
+	if err == nil {
+		defer lock.Close()
+		syscall.Flock(int(lock.Fd()), syscall.LOCK_EX)
+		defer syscall.Flock(int(lock.Fd()), syscall.LOCK_UN)
+		if b, err := os.ReadFile(cache); err == nil {
+			return string(b), nil
+		}
+	}
+	args := append([]string{"3000", "coqchk", "-silent", "-o", "-Q", "theories", "Sebuf", "-Q", "proofs", "SebufProofs", "-Q", "props", "SebufProps"}, mods...)
+	cmd := exec.Command("timeout", args...)
+	cmd.Dir = coqdir
+	out, err := cmd.CombinedOutput()
+	txt := string(out)
+	if i := strings.Index(txt, "CONTEXT SUMMARY"); i >= 0 {
+		txt = txt[i:]
+	}
+	if err != nil {
+		return txt, fmt.Errorf("coqchk: %v: %s", err, tail(txt, 1500))
+	}
+	os.WriteFile(cache, []byte(txt), 0o644)
+	return txt, nil
 }
